@@ -464,6 +464,19 @@ Varable failures: {var_failed}
         outf.updatemeta()
         return outf
 
+    def renameVariables(self, *args, **kwds):
+        """
+        Wrapper on PseudoNetCDFFile.renameVariables that updates VAR-LIST,
+        NVARS, VAR, and TFLAG
+
+        See also
+        --------
+        see PseudoNetCDFFile.renameVariables
+        """
+        outf = PseudoNetCDFFile.renameVariables(self, *args, **kwds)
+        outf.updatemeta()
+        return outf
+
     def sliceDimensions(self, *args, **kwds):
         """
         Wrapper PseudoNetCDFFile.sliceDimensions that corrects ROW, COL,
